@@ -30,6 +30,7 @@ func init() {
 	wrap("C24", c24CommitGate)
 	wrap("C37", c37PkBeforeIndexes)
 	wrap("C42", c42LockHandedOutOnlyIfHeld)
+	wrap("C15", c15BuilderResetComplete)
 	Registry["C24"].Patterns = append(Registry["C24"].Patterns, "./libraries/doltcore/env/actions")
 }
 
@@ -292,4 +293,89 @@ func c42LockHandedOutOnlyIfHeld(k *eng.Check) {
 		return
 	}
 	k.OnlyAfter("lock-handed-out-only-if-held", fn, "fLock succeeds only on the edge where the lock acquisition returned nil", eng.SuccessExits(fn), 1, k.OkCalls(fn, "acquire", acquire))
+}
+
+// c15BuilderResetComplete: a TupleBuilder is reused for many tuples; "tuples built from the same values are
+// byte-identical no matter how they were built" needs every Build* method (except the one documented not to) to
+// leave the builder fully reset, and the reset to cover every piece of state the Put* methods write.
+func c15BuilderResetComplete(k *eng.Check) {
+	c := k.C
+	recycle := k.Fn("(*store/val.TupleBuilder).Recycle")
+	if recycle == nil {
+		return
+	}
+	mRecycle := eng.Static("(*store/val.TupleBuilder).Recycle")
+	n := 0
+	for _, fn := range c.Funcs("store/val") {
+		if fn.Parent() != nil || fn.Signature.Recv() == nil || !strings.HasPrefix(fn.Name(), "Build") {
+			continue
+		}
+		if strings.TrimPrefix(eng.ShortType(fn.Signature.Recv().Type()), "*") != "store/val.TupleBuilder" {
+			continue
+		}
+		if strings.Contains(fn.Name(), "NoRecycle") {
+			continue // documented: the caller recycles
+		}
+		n++
+		k.Require("builder-reset-complete", eng.Name(fn)+"#recycles", "a Build* method returns only after the builder was fully recycled", c.MustPass(fn, "recycle", mRecycle, 3), c.Pos(fn.Pos()),
+			"a success path of this Build method does not pass TupleBuilder.Recycle: fields written earlier can leak into the next tuple")
+	}
+	if n < 3 {
+		k.Unknown("builder-reset-complete", "store/val.TupleBuilder", "Build* methods", fmt.Sprintf("%d found (floor 3)", n))
+	}
+	// state written by Put*/ensureCapacity/addSize must be reset by Recycle
+	reset := map[string]bool{}
+	for _, b := range recycle.Blocks {
+		for _, in := range b.Instrs {
+			if st, ok := in.(*ssa.Store); ok {
+				if f := eng.FieldName(st.Addr); strings.HasPrefix(f, "store/val.TupleBuilder.") {
+					reset[strings.TrimPrefix(f, "store/val.TupleBuilder.")] = true
+				}
+				// fields[i] = nil
+				if ia, ok := st.Addr.(*ssa.IndexAddr); ok && eng.Mentions(ia.X, eng.IsField("store/val.TupleBuilder.fields")) && isNil(st.Val) {
+					reset["fields"] = true
+				}
+			}
+		}
+	}
+	written := map[string]string{}
+	for _, fn := range c.Funcs("store/val") {
+		if fn.Signature.Recv() == nil || strings.TrimPrefix(eng.ShortType(fn.Signature.Recv().Type()), "*") != "store/val.TupleBuilder" {
+			continue
+		}
+		if !(strings.HasPrefix(fn.Name(), "Put") || fn.Name() == "addSize") {
+			continue
+		}
+		for _, b := range fn.Blocks {
+			for _, in := range b.Instrs {
+				if st, ok := in.(*ssa.Store); ok {
+					if f := eng.FieldName(st.Addr); strings.HasPrefix(f, "store/val.TupleBuilder.") {
+						written[strings.TrimPrefix(f, "store/val.TupleBuilder.")] = c.InstrPos(in)
+					}
+					if ia, ok := st.Addr.(*ssa.IndexAddr); ok && eng.Mentions(ia.X, eng.IsField("store/val.TupleBuilder.fields")) {
+						written["fields"] = c.InstrPos(in)
+					}
+				}
+			}
+		}
+	}
+	if len(written) < 3 {
+		k.Unknown("builder-reset-complete", "store/val.TupleBuilder", "builder state written by Put* methods", fmt.Sprintf("%d fields found (floor 3)", len(written)))
+	}
+	for f, pos := range written {
+		k.Require("builder-reset-complete", "Recycle#"+f, "TupleBuilder."+f+" (written while a tuple is being built) is reset by Recycle", reset[f], pos, "state survives Recycle and leaks into the next tuple")
+	}
+	// the field-clearing loop covers the whole descriptor, not a prefix
+	full := false
+	for _, l := range eng.Loops(recycle) {
+		if iff, ok := l.Header.Instrs[len(l.Header.Instrs)-1].(*ssa.If); ok {
+			if eng.MentionsDeep(iff.Cond, func(x ssa.Value) bool {
+				cc, ok := x.(*ssa.Call)
+				return ok && (strings.HasSuffix(eng.CalleeName(cc), "TupleDesc).Count") || eng.CalleeName(cc) == "builtin:len")
+			}) {
+				full = true
+			}
+		}
+	}
+	k.Require("builder-reset-complete", "Recycle#all-fields", "Recycle clears every field of the descriptor (loop bound is the descriptor's field count)", full, c.Pos(recycle.Pos()), "the clearing loop is not bounded by Desc.Count()/len(fields)")
 }
